@@ -1,6 +1,7 @@
 package otto
 
 import (
+	"regexp"
 	"strconv"
 )
 
@@ -22,9 +23,11 @@ var (
 		value: 0,
 	}
 	// The Date prototype object is a Date whose time value is NaN (15.9.5).
-	prototypeValueDate   = invalidDateObject
+	prototypeValueDate = invalidDateObject
+	// The RegExp prototype object is itself a regular expression object,
+	// as if created by new RegExp() (15.10.6).
 	prototypeValueRegExp = regExpObject{
-		regularExpression: nil,
+		regularExpression: regexp.MustCompile(""),
 		global:            false,
 		ignoreCase:        false,
 		multiline:         false,
